@@ -195,8 +195,21 @@ def run_shard(spec, ctx):
             case = dict(case0, call=what, on=who)
             df_in = df_new.copy(deep=True)
             df_ref = df_in.copy(deep=True)
-            ds_in = gen.to_dataset(df_new, events=events)
-            ds_dig = dig({"values": ds_in.values, "mask": ds_in.mask, "timepoints": ds_in.timepoints, "event_time": ds_in.event_time, "event_bool": ds_in.event_bool})
+            int_ids = (not events) and what in ("mean_posterior", "mode_posterior") and (spec["k"] + i) % 3 == 0
+            if int_ids:
+                # the same cohort under integer identifiers (accepted by the readers and by the sampling-based personalisations), given as a Dataset object
+                ids_map = {s_: 100 + 7 * j_ for j_, s_ in enumerate(dict.fromkeys(df_new["ID"]))}
+                ds_in = gen.to_dataset(df_new.assign(ID=df_new["ID"].map(ids_map)), events=False)
+                ctx.count("personalize_calls_on_a_dataset_with_integer_ids")
+            else:
+                ds_in = gen.to_dataset(df_new, events=events)
+
+            def ds_digest():
+                return dig({"values": ds_in.values, "mask": ds_in.mask, "timepoints": ds_in.timepoints, "event_time": ds_in.event_time, "event_bool": ds_in.event_bool,
+                            "indices": [(type(x_).__name__, str(x_)) for x_ in ds_in.indices], "headers": list(ds_in.headers),
+                            "n_visits": list(map(int, ds_in.n_visits_per_individual))})
+
+            ds_dig = ds_digest()
             before = model_snapshot(m)
             s_before = settings_snapshot(settings) if settings is not None else None
             out = None
@@ -247,7 +260,7 @@ def run_shard(spec, ctx):
                                         custom_scipy_minimize_params={"method": "Powell", "options": {"xtol": 1e-2, "ftol": 1e-2, "maxiter": 30}})
                     out = dig({"ids": list(ipr._indices), "ip": ipr.to_pytorch()[1]})
                 else:
-                    use_df = bool(rng.random() < 0.5) and not events
+                    use_df = bool(rng.random() < 0.5) and not events and not int_ids
                     data_arg = df_in.set_index(["ID", "TIME"]) if use_df else ds_in
                     if use_df:
                         df_ref = data_arg.copy(deep=True)
@@ -261,7 +274,7 @@ def run_shard(spec, ctx):
                     ctx.count("input_snapshots")
                     if use_df and not (data_arg.equals(df_ref) and list(data_arg.dtypes) == list(df_ref.dtypes) and data_arg.index.equals(df_ref.index)):
                         ctx.violation("api/personalize/caller-table-modified", f"{what} modified the DataFrame passed in", case)
-                    if dig({"values": ds_in.values, "mask": ds_in.mask, "timepoints": ds_in.timepoints, "event_time": ds_in.event_time, "event_bool": ds_in.event_bool}) != ds_dig:
+                    if ds_digest() != ds_dig:
                         ctx.violation("api/personalize/caller-dataset-modified", f"{what} modified the Dataset tensors passed in", case)
             after = model_snapshot(m)
             ctx.count("calls_monitored")
